@@ -6,7 +6,8 @@
                                  seek(secondary.current_lba * 512 - secondary.num_parts * 128),
                                  parse_secondary_gpt_partitions(read(num_parts * 128)); the object is
                                  kept only when parse returned True
-     isohybrid.py IsoHybrid.parse   Hybrid.ih_parse_mbr, then `if self.efi: primary_gpt.parse_primary`
+     isohybrid.py IsoHybrid.parse   Hybrid.ih_parse_mbr with the geometry rule of f7c6de3 ([hp_parse_mbr]),
+                                 then `if self.efi: primary_gpt.parse_primary`
      GPT.parse_primary           header.parse(instr[512:]); when mac and instr[2048:2050] != 00 00
                                  three APMPartHeader.parse at 2048, 4096, 6144; the partition loop
                                  at header.partition_entries_lba * 512 (Hybrid.gpt_parse_parts)
@@ -88,10 +89,24 @@ Definition gpt_parse_primary (instr : list Z) (mac : bool) : option gpt :=
 
 Definition empty_gpt (prim : bool) : gpt := mk_gpt prim (mk_ghdr 0 0 0 0 [] 0 0 0) [] [].
 
-(* IsoHybrid.parse(instr) *)
-Inductive hparse_res := HRaise | HFalse | HOk (y : hybrid).
-Definition hp_parse (instr : list Z) : hparse_res :=
+(* IsoHybrid.parse(instr), MBR part.  [fs] = true: f7c6de3 (`geometry_sectors = esect & 0x3f`, esect =
+   byte 6 of the active entry; only when that is 0 the old estimate); [fs] = false: the tree before it
+   (Hybrid.ih_parse_mbr: min(psize // ((ecyle + 1) * heads), 63)). *)
+Definition active_entry (instr : list Z) (pe : Z) : list Z :=
+  slice (446 + 16 * (pe - 1)) (446 + 16 * pe) (firstn 512 instr).
+Definition hp_parse_mbr (fs : bool) (instr : list Z) : parse_res :=
   match ih_parse_mbr instr with
+  | POk h =>
+      if fs then
+        let es := Z.land (nth 6 (active_entry instr (ih_part_entry h)) 0) 63 in
+        POk (if es =? 0 then h else ih_set_sectors h es)
+      else POk h
+  | r => r
+  end.
+
+Inductive hparse_res := HRaise | HFalse | HOk (y : hybrid).
+Definition hp_parse_gen (fs : bool) (instr : list Z) : hparse_res :=
+  match hp_parse_mbr fs instr with
   | PRaise => HRaise
   | PFalse => HFalse
   | POk h =>
@@ -107,10 +122,10 @@ Definition hp_parse (instr : list Z) : hparse_res :=
 
 Inductive open_res := ONone | ORaise | OUnknown | OHy (y : hybrid).
 
-Definition hp_open (img : himage) : open_res :=
+Definition hp_open_gen (fs : bool) (img : himage) : open_res :=
   match hp_read img 0 32768 with
   | RBytes head =>
-      match hp_parse head with
+      match hp_parse_gen fs head with
       | HRaise => ORaise
       | HFalse => ONone
       | HOk y =>
@@ -139,11 +154,19 @@ Definition hp_open (img : himage) : open_res :=
   end.
 
 (* open(write(y)) *)
-Definition hp_reopen (y : hybrid) (iso_size : Z) : open_res :=
+Definition hp_reopen_gen (fs : bool) (y : hybrid) (iso_size : Z) : open_res :=
   match hp_written y iso_size with
-  | Some img => hp_open img
+  | Some img => hp_open_gen fs img
   | None => ORaise
   end.
+
+(* the current tree / the tree before f7c6de3 *)
+Definition hp_parse := hp_parse_gen true.
+Definition hp_open := hp_open_gen true.
+Definition hp_reopen := hp_reopen_gen true.
+Definition hp_parse_old := hp_parse_gen false.
+Definition hp_open_old := hp_open_gen false.
+Definition hp_reopen_old := hp_reopen_gen false.
 
 (* ---- comparing objects and images -------------------------------------------------------------- *)
 
@@ -152,8 +175,8 @@ Definition himage_eqb (a b : himage) : bool :=
   (im_len a =? im_len b).
 
 (* write_fp of the unedited reopened object gives the same hybrid bytes and the same length *)
-Definition hp_rewrite_same (y : hybrid) (iso_size : Z) : bool :=
-  match hp_written y iso_size, hp_reopen y iso_size with
+Definition hp_rewrite_same_gen (fs : bool) (y : hybrid) (iso_size : Z) : bool :=
+  match hp_written y iso_size, hp_reopen_gen fs y iso_size with
   | Some img, OHy y' =>
       match hp_written y' iso_size with
       | Some img' => himage_eqb img img'
@@ -161,6 +184,9 @@ Definition hp_rewrite_same (y : hybrid) (iso_size : Z) : bool :=
       end
   | _, _ => false
   end.
+
+Definition hp_rewrite_same := hp_rewrite_same_gen true.
+Definition hp_rewrite_same_old := hp_rewrite_same_gen false.
 
 (* [header is MAC_AFP] ++ Hybrid.ih_fields_list ++ primary header / entries / APM ++ backup header /
    entries, of a reopened object; the GPT parts are empty lists without efi *)
